@@ -217,6 +217,7 @@ func vfC06Run(e *vfEnv, r *vfResult, idx int) { //nolint:cyclop
 	s.desc["topology"], s.desc["variant"] = t, variant
 	ca, cb := vfSideCfg{MaxBinding: 1000, TieBreaker: 11}, vfSideCfg{MaxBinding: 1000, TieBreaker: 22}
 	ca.TCPPassive, cb.TCPPassive = s.rng.IntN(3) == 0, s.rng.IntN(3) == 0 // ICE-TCP passive local candidates (simulated TCP mux)
+	ca.TCPActive, cb.TCPActive = s.rng.IntN(4) == 0, s.rng.IntN(4) == 0     // or active ICE-TCP towards passive remotes
 	s.mappedSignalling = s.rng.IntN(3) == 0
 	s.desc["ipv4_mapped_signalling"] = s.mappedSignalling
 	s.mdnsSignalling = !s.mappedSignalling && s.rng.IntN(3) == 0
@@ -274,6 +275,12 @@ func vfC06Run(e *vfEnv, r *vfResult, idx int) { //nolint:cyclop
 			}
 			if tc, err := NewCandidateHost(&CandidateHostConfig{Network: "tcp", Address: ip, Port: 4000 + i, Component: 1, TCPType: TCPTypePassive}); err == nil {
 				pending = append(pending, vfPendingSignal{to: x, cand: tc, desc: fmt.Sprintf("%s told TCP passive candidate %s", x.name, ip)})
+				if s.rng.IntN(2) == 0 {
+					// trickled twice (a signalling layer that repeats itself): the second copy changes nothing
+					if tc2, err := NewCandidateHost(&CandidateHostConfig{Network: "tcp", Address: ip, Port: 4000 + i, Component: 1, TCPType: TCPTypePassive}); err == nil {
+						pending = append(pending, vfPendingSignal{to: x, cand: tc2, desc: fmt.Sprintf("%s told TCP passive candidate %s again", x.name, ip)})
+					}
+				}
 			}
 			s.r.count("c06_sessions_with_tcp_remote_candidates", 1)
 		}
